@@ -366,9 +366,19 @@ def shrink_session(kind, session, still_fails, budget=60):
     return cur
 
 
-def fails_again(kind, session):
+def verdict_class(v):
+    """first word(s) of a verdict: `fail:roundtrip`, `fail:panic`, …"""
+    return v.split(" ")[0]
+
+
+def fails_again(kind, session, want=None, want_out=None):
+    """the last line of the session still fails — in the same way (same verdict class, same implementation output)"""
     go = run_go(kind, session)
-    return go[-1] is not None and go[-1][1].startswith("fail")
+    if go[-1] is None or not go[-1][1].startswith("fail"):
+        return False
+    if want_out is not None and go[-1][0] != want_out:
+        return False
+    return want is None or verdict_class(go[-1][1]) == want
 
 
 # ---------------------------------------------------------------- evidence / verdict
